@@ -84,13 +84,33 @@ func closureRound(pkgs []*packages.Package, overlay map[string][]byte) (map[stri
 					}
 					return true
 				})
+				if os.Getenv("SERVCHECK_DEBUG_NORM") != "" && len(defs) > 0 {
+					fmt.Fprintln(os.Stderr, "closure candidates in", fd.Name.Name, len(defs))
+				}
+				defObjs := map[types.Object]bool{}
+				for _, df := range defs {
+					defObjs[df.obj] = true
+				}
 				for _, df := range defs {
 					lit := df.lit
+					// leaves first: a closure that calls another local closure waits for a later
+					// round, when that call has been replaced by the other's body
+					callsOther := false
+					ast.Inspect(lit.Body, func(n ast.Node) bool {
+						if id, ok := n.(*ast.Ident); ok && defObjs[pkg.TypesInfo.Uses[id]] && pkg.TypesInfo.Uses[id] != types.Object(df.obj) {
+							callsOther = true
+						}
+						return true
+					})
+					if callsOther {
+						continue
+					}
 					// a closure with results is only substituted where it is returned at once
 					// (`return abort(err)`): its own return statements then return from the caller
 					hasResults := lit.Type.Results != nil && len(lit.Type.Results.List) > 0
 					// the body: no return (unless hasResults), no label, no use of itself, no defer
 					okBody := true
+					var bareReturns []*ast.ReturnStmt
 					ast.Inspect(lit.Body, func(n ast.Node) bool {
 						switch x := n.(type) {
 						case *ast.FuncLit:
@@ -99,7 +119,8 @@ func closureRound(pkgs []*packages.Package, overlay map[string][]byte) (map[stri
 							}
 						case *ast.ReturnStmt:
 							if !hasResults {
-								okBody = false
+								// a bare return ends the call: it becomes a jump behind the inlined body
+								bareReturns = append(bareReturns, x)
 							}
 						case *ast.DeferStmt, *ast.LabeledStmt:
 							okBody = false
@@ -250,10 +271,24 @@ func closureRound(pkgs []*packages.Package, overlay map[string][]byte) (map[stri
 						}
 						var pre strings.Builder
 						for i, a := range st.call.Args {
+							if pnames[i] == "_" {
+								fmt.Fprintf(&pre, "var _ %s = %s\n", ptypes[i], string(src[off(a.Pos()):off(a.End())]))
+								continue
+							}
 							fmt.Fprintf(&pre, "var %s %s = %s\n_ = %s\n", pnames[i], ptypes[i], string(src[off(a.Pos()):off(a.End())]), pnames[i])
 						}
 						text := body
-						if pre.Len() > 0 {
+						if len(bareReturns) > 0 {
+							// `return` -> `goto <label>`, the label right behind the body
+							label := fmt.Sprintf("_clret%d", off(st.stmt.Pos()))
+							base := off(lit.Body.Lbrace)
+							rs := append([]*ast.ReturnStmt{}, bareReturns...)
+							sort.Slice(rs, func(i, j int) bool { return rs[i].Pos() > rs[j].Pos() })
+							for _, r := range rs {
+								text = text[:off(r.Pos())-base] + "goto " + label + text[off(r.End())-base:]
+							}
+							text = "{\n" + pre.String() + text + "\n}\n" + label + ":\n;"
+						} else if pre.Len() > 0 {
 							text = "{\n" + pre.String() + body + "\n}"
 						}
 						siteEdits = append(siteEdits, edit{off(st.stmt.Pos()), off(st.stmt.End()), text})
